@@ -162,7 +162,10 @@ def judge_trace(src, expected, r):
     return None
 
 BAD_LINES = [("x_bad = = 1", "="), (")", ")"), ("then 1", "then"), ("y_bad = 1 +* 2", "*"), ("z_bad = (1, 2))", ")"), ("w_bad = [1, 2]]", "]"), ("v_bad = 1 2", "2"),
-             ("else", "else"), ("catch e", "catch"), ("t_bad = 1 +", None), ("s_bad = }", "}")]
+             ("else", "else"), ("catch e", "catch"), ("t_bad = 1 +", None), ("s_bad = }", "}"),
+             # unclosed constructs: the offending token is the first token of the following line
+             ("u_bad = h_few(10, 2", "NEXT"), ("u_bad = h_few(1, [2, 3]", "NEXT"), ("u_bad = [1, 2", "NEXT"), ("u_bad = (1, 2", "NEXT"), ("u_bad = {a: 1", "NEXT"),
+             ("u_bad = 1.max(2", "NEXT"), ("u_bad = 'a'.to_uppercase(", "NEXT")]
 
 def _shard(shard, n, tier, seed, budget_s):
     w = Worker()
@@ -226,8 +229,8 @@ def _shard(shard, n, tier, seed, budget_s):
             problems = []
             if not (0 <= sl < n_lines and 0 <= el < n_lines and sc <= len(lines2[sl]) + 1 and (el >= len(lines2) or ec <= len(lines2[el]) + 1)):
                 problems.append("span %s lies outside the text" % r["span"])
-            elif sl != at:
-                problems.append("span starts on line %d, the bad token is on line %d" % (sl + 1, at + 1))
+            elif sl != (at + 1 if tok == "NEXT" else at):
+                problems.append("span starts on line %d, the bad token is on line %d" % (sl + 1, (at + 1 if tok == "NEXT" else at) + 1))
             problems += check_rendered(src, r.get("error") or "")
             if problems:
                 rep["violations"].append({"key": "compile-span:%s:%s" % (bad, sha(src)), "summary": "compile error for the planted line `%s`: %s" % (bad, problems[0]), "case": {"src": src, "planted_line": at + 1, "span": r["span"], "error": r.get("error")}})
